@@ -653,13 +653,13 @@ type genEntry struct {
 }
 
 type gen struct {
-	raceBase int // first collection index bound by a regrace op in this case (-1: none)
-	aimed   bool // the current op is meant to reach its handler: no random deviations
-	h       *hx.T
-	run     func(op string)
-	entries []genEntry
-	ncols   int
-	eid     int
+	raceBase int  // first collection index bound by a regrace op in this case (-1: none)
+	aimed    bool // the current op is meant to reach its handler: no random deviations
+	h        *hx.T
+	run      func(op string)
+	entries  []genEntry
+	ncols    int
+	eid      int
 }
 
 var groupPool = []string{"hello", "Hello", "_", "a.b", "room", "ZooA", "zoov", ""}
